@@ -240,6 +240,7 @@ class Interp:
             cache = fn.raw["_icache"] = self._precompute()
         self.ext_ids, self.addr_taken, self.base_tracked, self.copies, self.live_in = cache
         self.tracked = set(self.base_tracked)
+        self.always_live = set()
 
     # ------------------------------------------------------------ precomputation
     def _precompute(self):
@@ -338,6 +339,7 @@ class Interp:
         """Rule-specific extra status variables (closed under copies)."""
         t = self.tracked
         t |= set(paths)
+        self.always_live |= set(paths)
         changed = True
         while changed:
             changed = False
@@ -857,7 +859,7 @@ class Interp:
                     sig = s2.sigma
                     if sig:
                         li = live_in[sid]
-                        dead = [p for p in sig if p not in li and p not in self.addr_taken]
+                        dead = [p for p in sig if p not in li and p not in self.addr_taken and p not in self.always_live]
                         if dead:
                             sig = {p: v for p, v in sig.items() if p not in dead}
                     if tmp is not s2.tmp or sig is not s2.sigma:
